@@ -39,12 +39,12 @@ Definition dialect_eqb (a b : dialect) : bool :=
 
 (* ---------------------------------------------------------------- the Python object tree *)
 (* One constructor per Python class/value that can occur in the fragment.
-   NList / NSelect are operand *values* (a Python list of constants, a
+   NList / NSelect are operand *values* (a Python list of operands, a
    sqlbuilder.Select); NBad is "an object outside the modelled fragment". *)
 Inductive node :=
 | NField (c : col)                          (* SQLObjectField / Field *)
 | NAtom (a : atom)                          (* a raw Python constant operand *)
-| NList (l : list atom)                     (* a Python list/tuple of constants *)
+| NList (l : list node)                     (* a Python list/tuple of constants and expressions *)
 | NSelect (k : N)                           (* sqlbuilder.Select number k (a one-column subquery) *)
 | NSQLOp (op : opname) (e1 e2 : node)       (* SQLOp(op, e1, e2) *)
 | NSQLModulo (e1 e2 : node)                 (* SQLModulo(e1, e2) *)
